@@ -1,6 +1,7 @@
 import OvniModel.Lemmas.FsSched
 import OvniModel.Lemmas.FsWitness
 import OvniModel.Lemmas.FsBuffer
+import OvniModel.Lemmas.FsJsonCodec
 
 /-!
 # C09 — crash consistency
@@ -21,6 +22,10 @@ header, tiles into events and leaves the thread dead.
 * `finished_after_data` — finished = 1 visible in the final tree ⇒ the final
   stream.obs is complete.
 * `…_any_schedule` — both for every interleaving of the calls of several threads.
+* `…_parson` — the same with the `Codec` parameter instantiated by the parson
+  model (`Lemmas/FsJsonCodec.jsonCodec`): its two hypotheses — a serialized
+  `stream.json` parses back, **no proper prefix of it parses** — are theorems
+  (`Props/Json.roundtrip`, `Props/Json.truncation_rejected`), no longer assumptions.
 * `crash_consistent_before_fix`, `finished_after_data_before_fix` — for the code
   before the fix (`Rt/FsOld.lean`: files relocated in readdir order) both
   statements are FALSE: witness with stream.json relocated first (key
@@ -60,6 +65,34 @@ theorem finished_after_data_any_schedule (C : Codec) (p : Prog) (L : List FOp)
     (hL : Schedule C.ser p L) (hwf : WellFormed p) : FinishedAfterDataS C p L := by
   intro k cut t ht j hj hfin
   exact finished_after_data_of_inv C t _ (tinv_at_crash_sched C p L hL hwf t ht k).fad cut j hj hfin
+
+/-! ### with parson as modelled in `OvniModel/Json.lean` (no hypothesis on the JSON library left) -/
+
+/-- `crash_consistent` for `json_serialize_to_file_pretty` /
+    `json_parse_file_with_comments` themselves: what a kill leaves of a
+    `stream.json` is a prefix of the serialized text, and the parson model
+    refuses every proper prefix (`Props/Json.truncation_rejected`). -/
+theorem crash_consistent_parson (E : EmuCfg) (p : Prog) (hwf : WellFormed p) : CrashConsistent E jsonCodec p :=
+  crash_consistent E jsonCodec p hwf
+
+theorem finished_after_data_parson (p : Prog) (hwf : WellFormed p) : FinishedAfterData jsonCodec p :=
+  finished_after_data jsonCodec p hwf
+
+theorem crash_consistent_any_schedule_parson (E : EmuCfg) (p : Prog) (L : List FOp)
+    (hL : Schedule jsonCodec.ser p L) (hwf : WellFormed p) : CrashConsistentS E jsonCodec p L :=
+  crash_consistent_any_schedule E jsonCodec p L hL hwf
+
+/-- The codec is not vacuous: the serialized metadata of a finished thread is the
+    pretty-printed object and reads back as finished; cut before its last byte it
+    does not parse. -/
+example : jsonCodec.parse (jsonCodec.ser ⟨true, 42⟩) = some ⟨true, 42⟩
+    ∧ jsonFinished jsonCodec (jsonCodec.ser ⟨true, 42⟩) = true
+    ∧ jsonFinished jsonCodec (jsonCodec.ser ⟨false, 42⟩) = false
+    ∧ jsonCodec.parse ((jsonCodec.ser ⟨true, 42⟩).dropLast) = none
+    ∧ jsonCodec.ser ⟨true, 7⟩ = [123, 10, 32, 32, 32, 32, 34, 118, 101, 114, 115, 105, 111, 110, 34, 58, 32, 51, 44, 10,
+        32, 32, 32, 32, 34, 111, 118, 110, 105, 34, 58, 32, 123, 10, 32, 32, 32, 32, 32, 32, 32, 32, 34, 98, 111, 100,
+        121, 34, 58, 32, 34, 55, 34, 44, 10, 32, 32, 32, 32, 32, 32, 32, 32, 34, 102, 105, 110, 105, 115, 104, 101,
+        100, 34, 58, 32, 49, 10, 32, 32, 32, 32, 125, 10, 125] := by decide
 
 /-- The sequential run of the other theorems is one of the schedules. -/
 example (C : Codec) (p : Prog) : Schedule C.ser p (ops (calls C.ser p)) := schedule_sequential C.ser p
